@@ -7,10 +7,10 @@ from ..abstools import *
 from ..core import AnalysisError, own_nodes, norm
 from .. import roles
 
-LEVEL_TEXT = ('static analysis by finite-domain abstract interpretation of call.py / cnary.py on the real ASTs: (D1) the purity formula reduces '
-              'to n under the mixing model as an exact rational identity, and to r*2^v without purity; (D2) the reference / germline copy table '
-              'over ploidy 1..6 x reference sex x sample sex x naming x PAR genome x chromosome class equals the stated one, the pure-path '
-              'sibling agrees, and the PAR filters, interpreted on literal bins around every PAR1 / PAR2 boundary of both sex chromosomes for '
+LEVEL_TEXT = ('static analysis by finite-domain abstract interpretation of call.py / cnary.py on the real ASTs: (D1) absolute_clonal (unrounded) reduces '
+              'to n under the mixing model as an exact rational identity and to r*2^v without purity, absolute_pure to r*2^v, on one row per class (public functions; the private scalar helpers are reached through them); (D2) the reference / germline copy table '
+              'over ploidy 1..6 x reference sex x sample sex x naming x PAR genome x chromosome class equals the stated one, '
+              'and the PAR filters, interpreted on literal bins around every PAR1 / PAR2 boundary of both sex chromosomes for '
               'each genome build and naming, flag exactly the bins of their own chromosome lying wholly inside its own PAR entries; (D3) the '
               'rescaled log2 is log2(max(n/ploidy,0.001)) + 1 exactly on the classes with r = ploidy//2; (D4) the value stored in `cn` by do_call'
               ' is round()ed, integer and has interval lower bound >= 0 for every real log2 and purity in (0,1], and without purity it is '
@@ -35,31 +35,60 @@ def purity_val():
     return p
 
 
-def d1(chk, prog):
-    chk.clause("D1", "inversion identity: _log2_ratio_to_absolute == n under 2^v = (p n + (1-p) x)/r; == r 2^v when purity is 1/None")
-    W.reset()
-    it = Interp(prog)
-    fi = prog.fn("cnvlib.call._log2_ratio_to_absolute")
-    tb = Table(chk, "inversion-identity", "_log2_ratio_to_absolute / _log2_ratio_to_absolute_pure", fi.loc(), fi.qn)
-    n_ = Term.sym("n", 0, INF, True)
-    p = purity_val()
-    r_, x_ = Term.sym("r", 1, INF, True, positive=True), Term.sym("x", 0, INF, True)
-    v = Term.sym("v")
-    mix = t_div(t_add(t_mul(p.sym, n_), t_mul(t_sub(Term.const(1), p.sym), x_)), r_)
-    W.exp2_subst[v.key()] = mix
-    got = tb.guard(lambda: it.run(fi.qn, [v, r_, x_, p]), "0<purity<1")
-    tb.cell(got is not None and same(got, n_), dict(branch="0 < purity < 1", got=repr(got), want="n"))
-    for pv, label in ((1, "purity == 1"), (Fr(1), "purity == 1.0"), (None, "purity None")):
-        got = tb.guard(lambda: it.run(fi.qn, [v, r_, x_, pv]), label)
-        tb.cell(got is not None and same(got, t_mul(r_, mix)), dict(branch=label, got=repr(got), want="r*2^v"))
-    W.exp2_subst.clear()
-    got = tb.guard(lambda: it.run("cnvlib.call._log2_ratio_to_absolute_pure", [v, r_]), "pure")
-    tb.cell(got is not None and same(got, t_mul(r_, f_exp2(v))), dict(branch="pure helper", got=repr(got), want="r*2^v"))
+def d1(chk, prog, ploidies=(2, 3)):
+    chk.clause("D1", "inversion identity at the public functions: absolute_clonal == n (unrounded) under 2^v = (p n + (1-p) x)/r, == r 2^v when purity is 1 / 1.0 / None; "
+                     "absolute_pure == r 2^v")
+    # decided on the public functions (an earlier version interpreted the private scalar helpers by name; a rename, merge or re-signing of those is no change
+    # of behaviour): one row per class, log2 a symbol whose 2^v is *defined* as the mixture, the unrounded result compared with n
+    model = par_model()
+    fi = prog.fn("cnvlib.call.absolute_clonal")
+    tb = Table(chk, "inversion-identity", "absolute_clonal (unrounded) on one row per class x ploidy x flags", fi.loc(), fi.qn)
+    for P, hap, fem, par in itertools.product(ploidies, [False, True], [False, True], [None, "grch38"]):
+        classes = [c for c in CLS5 if ref_exp_oracle(c, P, hap, fem, par)[0] != 0]
+        for label, mk in (("0 < purity < 1", purity_val), ("purity == 1", lambda: 1), ("purity == 1.0", lambda: Fr(1)), ("purity None", lambda: None)):
+            W.reset()
+            it = Interp(prog, model)
+            p = mk()
+            rows, want = [], []
+            for c in classes:
+                r, x = ref_exp_oracle(c, P, hap, fem, par)
+                n_, v = Term.sym(f"n_{c}", 0, INF, True), Term.sym(f"v_{c}")
+                if isinstance(p, OrderVal):
+                    W.exp2_subst[v.key()] = t_div(t_add(t_mul(p.sym, n_), t_mul(t_sub(Term.const(1), p.sym), T(x))), T(r))
+                    want.append(n_)
+                else:
+                    want.append(t_mul(T(r), f_exp2(v)))
+                rows.append({"chromosome": chrom(c, "chr"), "start": Term.sym("s"), "end": Term.sym("e"), "gene": "g", "log2": v})
+            g = make_ga("CopyNumArray", rows, {"_classes": classes, "sample_id": "S"}, index="any")
+            out = tb.guard(lambda: it.run(fi.qn, [g, P, p, hap, par, fem]), f"P={P} {label}")
+            if out is None:
+                continue
+            vals = list(out.v) if isinstance(out, Vec) else None
+            for i, c in enumerate(classes):
+                got = vals[i] if vals is not None and len(vals) == len(classes) else None
+                tb.cell(got is not None and same(got, want[i]), dict(branch=label, ploidy=P, hap=hap, fem=fem, par=par, cls=c, got=repr(got), want=repr(want[i])))
     tb.done("purity inversion does not reduce to the mixing model", sample=dict(clause="D1", mix="2^v := (p*n + (1-p)*x)/r", result="n"))
+    fp = prog.fn("cnvlib.call.absolute_pure")
+    tb2 = Table(chk, "inversion-identity", "absolute_pure == r 2^v on {auto, X, Y} x ploidy x reference sex x naming", fp.loc(), fp.qn)
+    for P, hap, style in itertools.product(ploidies, [False, True], ["", "chr"]):
+        W.reset()
+        it = Interp(prog, model)
+        cl = ["auto", "x", "auto", "y", "x"]
+        rows = [{"chromosome": chrom(c, style), "start": Term.sym("s"), "end": Term.sym("e"), "gene": "g", "log2": Term.sym(f"v_{c}_{i}")} for i, c in enumerate(cl)]
+        g = make_ga("CopyNumArray", rows, {"_classes": cl, "sample_id": "S"}, index="any", exact=True)
+        out = tb2.guard(lambda: it.run(fp.qn, [g, P, hap]), f"P={P}")
+        if out is None:
+            continue
+        vals = list(out.v) if isinstance(out, Vec) else None
+        for i, c in enumerate(cl):
+            want = t_mul(T(ref_exp_oracle(c, P, hap, True, None)[0]), f_exp2(Term.sym(f"v_{c}_{i}")))
+            got = vals[i] if vals is not None and len(vals) == len(cl) else None
+            tb2.cell(got is not None and same(got, want), dict(ploidy=P, hap=hap, naming=style or "bare", row=i, cls=c, got=repr(got), want=repr(want)))
+    tb2.done("pure-path absolute copies are not reference copies x 2^log2 (reference copies disagree with the table on {auto, X, Y})")
 
 
 def d2(chk, prog, ploidies):
-    chk.clause("D2", "reference / germline copies table; sibling _reference_copies_pure; PAR filters read their own keys")
+    chk.clause("D2", "reference / germline copies table; PAR filters read their own keys")
     W.reset()
     it = Interp(prog, par_model())
     fi = prog.fn(GETDF)
@@ -87,13 +116,6 @@ def d2(chk, prog, ploidies):
             if r is not None:
                 tbw.cell(same(r.v[i], ref_exp_oracle(c, P, flag, True, par)[0]), dict(fn="absolute_reference", ploidy=P, hap=flag, par=par, cls=c, got=repr(r.v[i])))
     tbw.done("absolute_expect/absolute_reference return the wrong column")
-    fs = prog.fn("cnvlib.call._reference_copies_pure")
-    tb2 = Table(chk, "copies-table", "_reference_copies_pure agrees with the table on {auto, X, Y}", fs.loc(), fs.qn)
-    for P, hap, style in itertools.product(ploidies, [False, True], ["", "chr"]):
-        for c in ("auto", "x", "y"):
-            got = tb2.guard(lambda: it.run(fs.qn, [chrom(c, style), P, hap]), f"P={P}")
-            tb2.cell(same(got, ref_exp_oracle(c, P, hap, True, None)[0]), dict(ploidy=P, hap=hap, naming=style or "bare", cls=c, got=repr(got)))
-    tb2.done("pure-path reference copies disagree with the table")
     par_key_label(chk, prog)
 
 
